@@ -59,6 +59,16 @@ CHECKS.update({
    text='25 obligations for all 11 primitives, every min/max/null triple and every bit pattern (floats as IEEE bit patterns, NaN payloads included): has_value_spec, to_bool_is_has_value, default_is_null, cmp_rules (null equals only null and orders before every value, otherwise underlying compare; both the six pre-C++20 operators and the <=>-derived relations), spaceship_well_formed, spaceship_agrees_with_operators, value_or_spec, in_range_spec, required_*; tables_extracted/defaults_match_builtins/builtins_match_sbe_table/generated_match_sbe_table: the whole generator default tables evaluate (C++ literal typing, narrowing) to the built-in types values and to the SBE table.',
    note='Trusted: hand-written Rt/Optional.lean (tied by ~130k quick / 2.9M thorough three-way comparisons), extract/tables.py, numeric_limits constants in evalLit, platform assumptions checked by the harness each run. Explicit decimal floating-point literals are only checked for NaN/INF/-INF; constant evaluation not modelled.'),
 })
+CHECKS.update({
+ 'C06': dict(
+   technique='Lean 4 proof by mutual structural induction over the group tree (three invariants: valid -> remaining size + cursor = n; a potential function for the callback count; an access log) about a hand-transliterated model of size_bytes_checked_visitor + generated visit_children + cursor, with validate_and_subtract extracted from sbepp.hpp on every run, against an independent specification; Layer R: real sbeppc -> generated driver with guard-page buffers of exactly n bytes and an exact callback counter (-finstrument-functions), release and checked builds',
+   text='16 obligations: vas_eq_extracted, spec_executable, checked_valid_iff_partial (valid iff the described structure fits, then size exact, for layouts without a 64-bit data length), checked_reads_below_n_partial (no read at offset >= n on buffers holding a complete structure with wire blockLengths >= compiled), checked_reads_slack (never further than n + a schema constant), checked_work_accounted / checked_work_bounded_partial (steps <= wmax*(n+2+zeroEntries)); the full-strength statements are kept as defs C06_valid_iff_full / C06_reads_below_n_full / C06_work_bounded_full and refuted by kernel-checked witnesses that the check replays on the real code on every run. Correspondence: every truncation point, 0/max/fit+-1 overwrites of every blockLength/numInGroup/length, blockLength=0 with numInGroup=max, message and group views; impl vs spec and vs model on verdict, size, FAULT point and exact callback count (~170k requests quick).',
+   note='Trusted: Lean kernel; the hand model Rt/Checked.lean tied to the code only by the differential check; extract/ for one kernel; the harness hook classifying callbacks by mangled name. Six OPEN known findings (genuine defects needing a redesign of the visitor/cursor hand-over, recorded not repaired): data length prefix read before validation, fields read beyond a short wire block, unbounded loop over zero-length entries, uint64 length wrap, cursor advanced before validation (pointer-overflow UB), vacuous SBEPP_SIZE_CHECK in checked builds.'),
+ 'C11': dict(
+   technique='Lean 4 proof over a guard table regenerated from sbepp.hpp and the generator fmt templates on every run (decide +kernel over the whole table) + induction over conversion/accessor paths of a const-ness graph; observed alongside per generated schema (real sbeppc output): detection-idiom static_asserts, negative compilation with positive twins, is_convertible matrices, read-only-page run-time probe',
+   text='13 obligations: mutators_guarded (every extracted overload that reaches a write primitive carries a rejection mechanism that is false for const view bytes / const cursor bytes; 381 rows, 58 writers), conversions_guarded, guard_definitions, table_guarded, writes_consistent, conv_only_towards_const, conv_table, no_path_to_mutator / no_path_to_cursor_mutator / cursor_children_const (from a const-byte node no mutator is enabled after any list of accessor, by-tag, conversion, cursor-wrapper steps), readers_write_nothing. Observed: ~28k static_asserts, 384 negative-compile pairs, 64 read-only traversals on PROT_READ pages per quick run.',
+   note='PARTIAL by nature (DESIGN 10): overload resolution, SFINAE and template instantiation are the compilers; extract/guards.py (regex/brace scraper) is trusted; enabledAt/conv are compared with the compilers through probes only.'),
+})
 NOT_APPLICABLE = {}
 
 ALL = ['C%02d' % i for i in range(1, 21)]
